@@ -325,6 +325,7 @@ pub fn run_c09(o: &Opts) -> Report {
         return rep;
     }
     let mut rng = Rng::new(o.seed ^ 0x9);
+    let all_specs = crate::fields::specs();
     let pool = mgen::build_pool(if o.thorough() { 6 } else { 2 });
     let per_type = if o.thorough() { 600 } else { 40 };
     for (&code, g) in grammars.iter() {
@@ -364,6 +365,32 @@ pub fn run_c09(o: &Opts) -> Report {
                 let v = judge_c09(&mut rep, code, &t, &c[i].tag.clone(), false, &invalid_content(), "corrupt");
                 rep.case(&format!("{code} bad {} {}", c[i].tag, i), true);
                 rep.tally(&format!("corrupt:{v}"));
+                // contents outside the field's documented format (string-level mutants of the valid content that the independent
+                // format matcher rejects): the message must be rejected, with an error that names this field
+                if let Some(ty) = crate::fieldspec::FIELD_SPECS.iter().find(|(_, t, _, _)| *t == msg.chunks[i].tag).map(|(n, _, _, _)| *n) {
+                    if let Some(sp) = all_specs.iter().find(|s| s.name == ty) {
+                        let mut ms = crate::fmt::mutants(&mut rng, &msg.chunks[i].content);
+                        // a random selection of the mutant classes per field occurrence
+                        let k = ms.len();
+                        for a in (1..k).rev() { let b = rng.below(a + 1); ms.swap(a, b); }
+                        let mut used = 0;
+                        for (cls, m) in ms {
+                            if used >= 4 { break; }
+                            if m.is_empty() || m != m.trim() || m.contains('{') || m.contains('}') || m.contains('\r')
+                                || m.split('\n').any(|l| l.starts_with(':') || l.starts_with('-') || l.is_empty()) || !m.is_ascii() && false {
+                                continue;
+                            }
+                            if crate::fields::documented(&all_specs, sp, &m) { continue; }
+                            used += 1;
+                            let mut c = msg.chunks.clone();
+                            c[i].content = m.clone();
+                            let t = tok::render(&c, "\n", true);
+                            let v = judge_c09(&mut rep, code, &t, &c[i].tag.clone(), false, &m, "corrupt-doc");
+                            rep.case(&format!("{code} doc {} {cls}", c[i].tag), true);
+                            rep.tally(&format!("corrupt-doc:{v}"));
+                        }
+                    }
+                }
                 // a lone carriage return inside an otherwise valid content (CR is not a character of any SWIFT set but z)
                 let orig = &msg.chunks[i].content;
                 if orig.chars().count() >= 2 && msg.chunks[i].tag != "77T" {
